@@ -23,7 +23,11 @@ Subset (everything else raises Untranslatable):
     `x = e`, `a, b = e` (tuple unpacking: `Dyn.unpackN`, ValueError on a length mismatch), `x[k] = e`, `del x[k]`, `x op= e`,
     expression statements, `return [e]`, `raise E[(message)]`, bare `raise` in a handler, `if/elif/else`, `for t in it`
     with `break` / `continue` / `return` inside (`for … else` when the body has no `break`), `try/except` (several handlers, tuples of classes, no `else`/`finally`),
-    nested `def` / `lambda` (closures over names that are not re-assigned afterwards).
+    nested `def` / `lambda` (closures over names that are not re-assigned afterwards); a nested GENERATOR function (plain
+    `yield e` statements, no `return`) when it is only used as the iterable of `for` loops (`DynFn.for_generator`: the loop
+    body is run at every `yield`, so the interleaving of effects is Python's); `with E as f:` (one manager, no
+    return / break / continue inside; `__enter__` / `__exit__` are the oracle's, a suppressed exception continues after the
+    block: `DynFn.with_stmt`); `c[...]`.
     Control flow is made explicit with the prelude's `Flow` / `LFlow` (falls through with the values of the variables the
     block assigns | `return r` | `break` | `continue`), loops are `Dyn.forM` (no escape in the body) or `Dyn.forIn`.
   * expressions (evaluated left to right into temporaries `t__N`, so the order of effects / exceptions is Python's):
@@ -40,6 +44,8 @@ Subset (everything else raises Untranslatable):
     every recursive call passes `fuel`.  `callees={'g': n}`: the function `g` it calls is a parameter (used to cut a
     mutual recursion: the caller passes itself at the smaller fuel).
   * `obj.attr[k] = e` (a store through a reference an object handed out) is the oracle's `setitem`.
+  * `x[k1][k2] = e` (a store into a container that is an element of the local dict / list `x`): read `x[k1]`, store, put it
+    back — only when the elements of `x` are provably referenced by `x` alone (`DynFn.nested_store_ok`).
   * logging calls (`ignore_calls`, default `log.*` / `self.debug|info|…`) and exception messages are not represented,
     but the attribute loads / subscripts / calls inside their arguments ARE evaluated (they can raise).
 
@@ -81,6 +87,7 @@ for _t in (str, bytes, list, tuple, dict, int, float, bool, set, frozenset):
     BUILTIN_METHOD_NAMES |= {n for n in dir(_t) if not n.startswith('__')}
 BINOPS = {ast.Add: 'add', ast.Sub: 'sub', ast.Mult: 'mul', ast.Div: 'truediv', ast.Pow: 'pow'}
 CMPOPS = {ast.Lt: '<', ast.LtE: '<=', ast.Gt: '>', ast.GtE: '>='}
+GENST = 'st__'          # inside a local generator: the state of the loop that consumes it
 
 
 def lstr(s):
@@ -207,6 +214,8 @@ class DynFn:
                 self.target_names(e, out)
         elif isinstance(t, ast.Subscript) and isinstance(t.value, ast.Name):
             out.append(t.value.id)
+        elif isinstance(t, ast.Subscript) and isinstance(t.value, ast.Subscript) and isinstance(t.value.value, ast.Name):
+            out.append(t.value.value.id)                  # `x[k1][k2] = e` re-binds `x` (see `nested_store_ok`)
         elif isinstance(t, ast.Starred):
             self.fail(t, 'starred assignment target')
 
@@ -275,7 +284,18 @@ class DynFn:
                         walk(h.body)
                 elif isinstance(s, ast.FunctionDef):
                     add(s.name)
+                elif isinstance(s, ast.With):
+                    for it in s.items:
+                        expr_calls(it.context_expr)
+                        if it.optional_vars is not None:
+                            names = []
+                            self.target_names(it.optional_vars, names)
+                            for n in names:
+                                add(n)
+                    walk(s.body)
                 elif isinstance(s, (ast.Expr, ast.Return, ast.Raise)):
+                    if isinstance(s, ast.Expr) and isinstance(s.value, ast.Yield):
+                        add(GENST)                        # `yield e` hands the consumer's state through (see `for_generator`)
                     if getattr(s, 'value', None) is not None:
                         expr_calls(s.value)
                     if isinstance(s, ast.Raise) and s.exc is not None:
@@ -312,6 +332,9 @@ class DynFn:
                 for blk in [s.body] + [h.body for h in s.handlers]:
                     r1, b1 = self.escapes(blk, in_loop)
                     ret, brk = ret or r1, brk or b1
+            elif isinstance(s, ast.With):
+                r1, b1 = self.escapes(s.body, in_loop)
+                ret, brk = ret or r1, brk or b1
         return ret, brk
 
     def defs_after(self, stmts, defined):
@@ -339,6 +362,10 @@ class DynFn:
                         alts.append(self.defs_after(h.body, d))
                 if alts:
                     d = set.intersection(*alts)
+            elif isinstance(s, ast.With):
+                for it in s.items:
+                    if isinstance(it.optional_vars, ast.Name):
+                        d.add(it.optional_vars.id)
             elif isinstance(s, (ast.Import, ast.ImportFrom)):
                 pass
         return d
@@ -393,6 +420,9 @@ class DynFn:
                             fresh_ok[nm] = fresh_ok.get(nm, True) and isinstance(n.value, ast.Call)
                     elif isinstance(t, ast.Subscript) and isinstance(t.value, ast.Name):
                         mutated[t.value.id] = n
+                    elif isinstance(t, ast.Subscript) and isinstance(t.value, ast.Subscript) \
+                            and isinstance(t.value.value, ast.Name):
+                        mutated[t.value.value.id] = n         # `x[k1][k2] = e`
                 share(n.value)
             elif isinstance(n, ast.AugAssign):
                 if isinstance(n.target, ast.Name):
@@ -623,10 +653,17 @@ class DynFn:
     def name(self, node, out):
         n = node.id
         if n in self.locals:
+            if n not in self.defined and n in getattr(self, 'unbound_names', ()):
+                # after a `with` whose context manager suppressed the exception: a name only the last statement of the body
+                # binds is unbound here — Python raises UnboundLocalError (a NameError); the rest of the block is dead
+                out.append('let _ ← (throw Dyn.Exc.NameError : m Unit)')
+                return 'Dyn.Val.none'
             if n not in self.defined:
                 self.fail(node, 'variable %s may be unbound here' % n)
             if self.localkind.get(n) == 'fn':
                 self.fail(node, 'a local function used as a value')
+            if self.localkind.get(n) == 'gen':
+                self.fail(node, 'a local generator used otherwise than as the iterable of a for loop')
             return self.var(n)
         if n in self.callees or (n in self.known and 'dyn' in self.known[n]):
             self.fail(node, 'a translated function used as a value (only as an argument for a function-valued parameter)')
@@ -753,6 +790,8 @@ class DynFn:
             return self.bindm(out, 'Dyn.getSlice ext %s %s %s' % (c, lo, hi))
         if isinstance(s, ast.Tuple) and any(isinstance(e, ast.Slice) for e in s.elts):
             self.fail(node, 'multi-dimensional slice')
+        if isinstance(s, ast.Constant) and s.value is Ellipsis:
+            return self.bindm(out, 'Dyn.getItemEllipsis ext %s' % c)      # `c[...]`
         k = self.expr(s, out)
         return self.bindm(out, 'Dyn.getItem ext %s %s' % (c, k))
 
@@ -1185,6 +1224,13 @@ class DynFn:
                     if nm in self.locals_assigned_non_import:
                         self.fail(s, 'an imported name that is also assigned')
                 continue
+            if isinstance(s, ast.Expr) and isinstance(s.value, ast.Yield):
+                # `yield e` in a local generator that a `for` loop consumes: one pass of that loop's body (`for_generator`)
+                if not getattr(self, 'in_generator', False) or s.value.value is None:
+                    self.fail(s, 'yield outside a local generator consumed by a for loop')
+                e = self.expr(s.value.value, out)
+                out.append('let %s ← yield__ %s %s' % (GENST, GENST, e))
+                continue
             if isinstance(s, ast.Expr):
                 self.expr_stmt(s.value, out)
                 continue
@@ -1255,6 +1301,9 @@ class DynFn:
                 if done:
                     return out
                 continue
+            if isinstance(s, ast.With):
+                self.with_stmt(s, ctx, rest, out)
+                return out
             self.fail(s, 'unsupported statement')
         out.append(self.fall(ctx))
         return out
@@ -1304,7 +1353,87 @@ class DynFn:
             k = self.expr(t.slice, out)
             out.append('let _ ← ext.op "setitem" [%s, %s, %s]' % (c, k, e))
             return
+        if isinstance(t, ast.Subscript) and isinstance(t.value, ast.Subscript) and isinstance(t.value.value, ast.Name) \
+                and t.value.value.id in self.locals and not isinstance(t.slice, ast.Slice) \
+                and not isinstance(t.value.slice, ast.Slice):
+            # `x[k1][k2] = e`: Python evaluates e, then `x[k1]` (a REFERENCE to the inner container), then k2, and stores into
+            # that inner container.  With values: read the inner container, store into it, put it back under k1 — the same
+            # thing as long as the inner container is reachable through `x` only (`nested_store_ok`); putting it back cannot
+            # raise once the read succeeded (x is a built-in dict / list there)
+            self.nested_store_ok(t.value.value.id, s)
+            e = self.expr(s.value, out)
+            c = self.expr(t.value.value, out)
+            k1 = self.expr(t.value.slice, out)
+            inner = self.bindm(out, 'Dyn.getItem ext %s %s' % (c, k1))
+            k2 = self.expr(t.slice, out)
+            new = self.bindm(out, 'Dyn.setItem ext %s %s %s' % (inner, k2, e))
+            out.append('let %s ← Dyn.setItem ext %s %s %s' % (c, c, k1, new))
+            return
         self.fail(s, 'unsupported assignment target')
+
+    def nested_store_ok(self, x, where):
+        """`x[k1][k2] = e` is translated with values (see `assign`).  That is Python's meaning iff every container stored in
+        `x` is referenced by `x` alone and `x` is a built-in container, which is enforced syntactically: `x` is a local
+        variable (not a parameter) only ever bound to a dict / list display (or comprehension) whose elements are displays,
+        comprehensions or constants; every `x[k] = v` stores such a fresh value; and `x` is read nowhere else than in
+        `… in x` / `… not in x`, `len(x)`, `return x` and as the base of those stores (so no element of `x` is ever handed
+        out, and no method of `x` is called)."""
+        def fresh(v):
+            return isinstance(v, (ast.Dict, ast.List, ast.ListComp, ast.DictComp, ast.Constant))
+
+        def fresh_container(v):
+            if isinstance(v, ast.Dict):
+                return all(k is not None and fresh(e) for k, e in zip(v.keys, v.values))
+            if isinstance(v, ast.List):
+                return all(fresh(e) for e in v.elts)
+            if isinstance(v, ast.ListComp):
+                return fresh(v.elt)
+            if isinstance(v, ast.DictComp):
+                return fresh(v.value)
+            return False
+
+        if x in {a.arg for a in self.node.args.args}:
+            self.fail(where, 'nested store into the parameter %s' % x)
+        allowed = set()
+        for n in ast.walk(self.node):
+            if isinstance(n, ast.Assign):
+                for t in n.targets:
+                    if isinstance(t, ast.Name) and t.id == x:
+                        if not fresh_container(n.value):
+                            self.fail(n, 'nested store into %s, which is bound to something else than a display of fresh values' % x)
+                    elif isinstance(t, (ast.Tuple, ast.List)):
+                        if any(isinstance(y, ast.Name) and y.id == x for y in ast.walk(t)):
+                            self.fail(n, 'nested store into %s, which is also an unpacking target' % x)
+                    elif isinstance(t, ast.Subscript) and isinstance(t.value, ast.Name) and t.value.id == x:
+                        if not fresh(n.value):
+                            self.fail(n, 'nested store into %s, which also receives a value that may be shared' % x)
+                        allowed.add(id(t.value))
+                    elif isinstance(t, ast.Subscript) and isinstance(t.value, ast.Subscript) \
+                            and isinstance(t.value.value, ast.Name) and t.value.value.id == x:
+                        allowed.add(id(t.value.value))
+            elif isinstance(n, (ast.AugAssign, ast.AnnAssign, ast.NamedExpr)):
+                if any(isinstance(y, ast.Name) and y.id == x for y in ast.walk(n.target)):
+                    self.fail(n, 'nested store into %s, which is also re-bound otherwise' % x)
+            elif isinstance(n, (ast.For, ast.comprehension)):
+                if any(isinstance(y, ast.Name) and y.id == x for y in ast.walk(n.target)):
+                    self.fail(n, 'nested store into %s, which is also a loop target' % x)
+            elif isinstance(n, ast.Compare) and len(n.ops) == 1 and isinstance(n.ops[0], (ast.In, ast.NotIn)) \
+                    and isinstance(n.comparators[0], ast.Name):
+                allowed.add(id(n.comparators[0]))
+            elif isinstance(n, ast.Return) and isinstance(n.value, ast.Name):
+                allowed.add(id(n.value))
+            elif isinstance(n, ast.Call) and isinstance(n.func, ast.Name) and n.func.id == 'len' and len(n.args) == 1 \
+                    and not n.keywords and isinstance(n.args[0], ast.Name) and self.is_builtin('len'):
+                allowed.add(id(n.args[0]))
+            elif isinstance(n, (ast.FunctionDef, ast.Lambda)) and n is not self.node:
+                if x in {a.arg for a in n.args.args}:
+                    self.fail(n, 'nested store into %s, which is also a parameter of a nested function' % x)
+            elif isinstance(n, ast.ExceptHandler) and n.name == x:
+                self.fail(n, 'nested store into %s, which is also an exception variable' % x)
+        for n in ast.walk(self.node):
+            if isinstance(n, ast.Name) and n.id == x and not isinstance(n.ctx, ast.Store) and id(n) not in allowed:
+                self.fail(where, 'nested store into %s, which is also read at line %d (an element could be shared)'
+                          % (x, getattr(n, 'lineno', 0)))
 
     def augassign(self, s, out):
         if type(s.op) not in BINOPS:
@@ -1332,7 +1461,8 @@ class DynFn:
         if a.vararg or a.kwarg or a.kwonlyargs or a.defaults or s.decorator_list:
             self.fail(s, 'unsupported nested function signature')
         if any(isinstance(x, (ast.Yield, ast.YieldFrom)) for x in ast.walk(s)):
-            self.fail(s, 'nested generator')
+            self.local_generator(s)
+            return
         names = [x.arg for x in a.args]
         saved = set(self.defined), set(self.locals), dict(self.localkind)
         inner_assigned = set(self.assigned(s.body))
@@ -1349,6 +1479,160 @@ class DynFn:
         self.defined.add(s.name)
         self.localkind[s.name] = 'fn'
         self.localarity[s.name] = len(names)
+
+    def local_generator(self, s):
+        """a nested generator function: nothing is emitted at the `def`; a `for x in gen(args): body` that consumes it is
+        translated by `for_generator` (the generator's body runs interleaved with the loop body, as in Python)"""
+        yields = [x for x in ast.walk(s) if isinstance(x, (ast.Yield, ast.YieldFrom))]
+        stmt_yields = {id(x.value) for x in ast.walk(s) if isinstance(x, ast.Expr) and isinstance(x.value, ast.Yield)}
+        for y in yields:
+            if isinstance(y, ast.YieldFrom) or id(y) not in stmt_yields or y.value is None:
+                self.fail(s, 'nested generator with a yield that is not a plain `yield e` statement')
+        for x in ast.walk(s):
+            if isinstance(x, ast.Return):
+                self.fail(s, 'nested generator with a return')
+            if isinstance(x, (ast.FunctionDef, ast.Lambda)) and x is not s:
+                self.fail(s, 'nested generator with a nested function')
+            if isinstance(x, ast.Name) and x.id in (GENST, 'yield__'):
+                self.fail(s, 'nested generator uses a reserved name')
+        names = [x.arg for x in s.args.args]
+        inner_assigned = set(self.assigned(s.body)) - {GENST}
+        inner_targets = []
+        for x in ast.walk(s):
+            if isinstance(x, ast.For):
+                self.target_names(x.target, inner_targets)
+        # the names of the enclosing function proper (its parameters, what it assigns, its loop / comprehension targets)
+        outer = {a.arg for a in self.node.args.args} | set(self.assigned(self.node.body))
+        stack = list(self.node.body)
+        while stack:
+            n = stack.pop()
+            if isinstance(n, (ast.FunctionDef, ast.Lambda)):
+                continue
+            if isinstance(n, ast.For):
+                tn = []
+                self.target_names(n.target, tn)
+                outer |= set(tn)
+            elif isinstance(n, (ast.ListComp, ast.DictComp, ast.SetComp, ast.GeneratorExp)):
+                for gen in n.generators:
+                    tn = []
+                    self.target_names(gen.target, tn)
+                    outer |= set(tn)
+            elif isinstance(n, ast.ExceptHandler) and n.name:
+                outer.add(n.name)
+            stack.extend(ast.iter_child_nodes(n))
+        if (inner_assigned | set(inner_targets)) & (outer - set(names)):
+            self.fail(s, 'nested generator assigns a variable of the enclosing function')
+        if not hasattr(self, 'localgens'):
+            self.localgens = {}
+        self.localgens[s.name] = s
+        self.defined.add(s.name)
+        self.localkind[s.name] = 'gen'
+
+    def for_generator(self, s, ctx, rest, out):
+        """`for x in gen(args): body` for a local generator `gen`.  Python runs the generator's body and the loop body as
+        coroutines: each `yield e` runs one pass of the loop body with `x = e`.  So the generator's body is translated as a
+        block that threads the STATE OF THE CONSUMING LOOP (`st__`: the variables the loop body re-binds) and calls the loop
+        body (`yield__`) at every `yield` — the order of all effects and exceptions is Python's."""
+        g = self.localgens[s.iter.func.id]
+        call = s.iter
+        if s.orelse:
+            self.fail(s, 'for … else over a local generator')
+        r, b = self.escapes(s.body, in_loop=False)
+        if r or b:
+            self.fail(s, 'return / break / continue in a loop over a local generator')
+        if call.keywords or any(isinstance(a, ast.Starred) for a in call.args) or len(call.args) != len(g.args.args):
+            self.fail(s, 'call of the local generator does not match its signature')
+        args = [self.expr(a, out) for a in call.args]
+        d0 = set(self.defined)
+        tnames = []
+        self.target_names(s.target, tnames)
+        lvars = [n for n in self.assigned(s.body) if n in d0 and n not in tnames]
+        sig = 'Unit' if not lvars else ' × '.join([V] * len(lvars))
+        # the loop body: one pass, from the loop's state and the yielded value to the new state
+        x, pre = self.with_targets(s.target, None)
+        lines = pre + self.block(s.body, Ctx('state', lvars, lvars))
+        self.defined = set(d0)
+        consumer = '(fun %s %s => do\n%s)' % (self.pack(lvars) if lvars else '_', x, '\n'.join(ind(lines, 4)))
+        # the generator's body, over the consumer's state
+        names = [a.arg for a in g.args.args]
+        saved = set(self.defined), set(self.locals), dict(self.localkind), getattr(self, 'in_generator', False)
+        gtargets = []
+        for y in ast.walk(g):
+            if isinstance(y, ast.For):
+                self.target_names(y.target, gtargets)
+        self.locals |= set(names) | set(self.assigned(g.body)) | set(gtargets) | {GENST}
+        self.defined |= set(names) | {GENST}
+        for n in names:
+            self.localkind[n] = 'val'
+        self.in_generator = True
+        save_mut, self.mutates = self.mutates, []
+        glines = self.block(g.body, Ctx('state', [GENST], None))
+        self.mutates = save_mut
+        self.defined, self.locals, self.localkind, self.in_generator = saved
+        params = ''.join(' (%s : %s)' % (self.var(n), V) for n in names)
+        gen = '(fun%s (yield__ : %s → %s → m (%s)) (%s : %s) => (do\n%s : m (%s)))' % (
+            params, '(%s)' % sig if lvars else sig, V, sig, GENST, sig, '\n'.join(ind(glines, 4)), sig)
+        out.append('let %s ← %s %s\n    %s %s' % (self.pack(lvars) if lvars else '_', gen, ' '.join(args), consumer,
+                                                   self.pack(lvars) if lvars else '()'))
+        return False
+
+    def with_stmt(self, s, ctx, rest, out):
+        """`with E as f: BODY` then REST.  Python: `cm = E; f = cm.__enter__()`, run BODY; if it completes,
+        `cm.__exit__(None, None, None)` and go on with REST; if it raises, `cm.__exit__(type, value, traceback)` — a true
+        result SUPPRESSES the exception and execution goes on with REST, with the variables as far as BODY got.  The second
+        path is representable because of two checks: no name that BODY binds before its last statement is read afterwards,
+        and a name that is read afterwards is bound by the LAST statement of BODY only, a plain assignment — so on the
+        suppressed path it still has its value from before the `with`, or is unbound (reading it raises NameError)."""
+        if len(s.items) != 1:
+            self.fail(s, 'with several context managers')
+        item = s.items[0]
+        if item.optional_vars is not None and not isinstance(item.optional_vars, ast.Name):
+            self.fail(s, 'with … as <not a name>')
+        r, b = self.escapes(s.body)
+        if r or b:
+            self.fail(s, 'return / break / continue inside a with block')
+        body_assigned = self.assigned(s.body)
+        used_after = self.reads(list(rest)) | self.reads_after_in_function(s)
+        early = self.assigned(s.body[:-1])
+        bad = [n for n in early if n in used_after]
+        if bad:
+            self.fail(s, 'with body assigns %s before its last statement and the value is used afterwards' % bad)
+        last = s.body[-1]
+        for n in body_assigned:
+            if n in used_after and not (isinstance(last, ast.Assign) and n not in self.reads([last.value])):
+                self.fail(s, 'a name read after the with block is bound by a compound last statement (%s)' % n)
+        cm = self.expr(item.context_expr, out)
+        cmv = self.temp()
+        out.append('let %s : %s := %s' % (cmv, V, cm))
+        f = self.bindm(out, 'Dyn.callMethod ext %s "__enter__" [] []' % cmv)
+        if item.optional_vars is not None:
+            if item.optional_vars.id in self.mutates:
+                self.fail(s, 'with … as a `mutates` parameter')
+            out.append('let %s : %s := %s' % (self.var(item.optional_vars.id), V, f))
+            self.defined.add(item.optional_vars.id)
+        d0 = set(self.defined)
+        after = self.defs_after(s.body, d0)
+        svars = [n for n in body_assigned if n in d0 or n in after]
+        body, _ = self.branch(s.body, Ctx('state', svars, ctx.loop_vars))
+        w = self.temp()
+        ev = 'we__%s' % w[3:]
+        term = ('(tryCatch (do\n    let s__ ← (do\n%s)\n    pure (some s__))\n  (fun %s => do\n    let sup__ ← Dyn.withExit ext %s (some %s)\n'
+                '    if sup__ then pure none else throw %s))') % ('\n'.join(ind(body, 6)), ev, cmv, ev, ev)
+        out.append('let %s ← %s' % (w, term))
+        # REST after the body completed
+        self.defined = set(after)
+        rest_ok = ['let _ ← Dyn.withExit ext %s none' % cmv] + self.block(list(rest), ctx)
+        # REST after a suppressed exception: the names only BODY binds are unbound
+        self.defined = set(d0)
+        saved_unbound = getattr(self, 'unbound_names', set())
+        self.unbound_names = set(saved_unbound) | (set(after) - set(d0))
+        rest_sup = self.block(list(rest), ctx)
+        self.unbound_names = saved_unbound
+        out.append('match %s with' % w)
+        out.append('| some %s => do' % (self.pack(svars) if svars else '()'))
+        out.extend(ind(rest_ok, 4))
+        out.append('| none => do')
+        out.extend(ind(rest_sup, 4))
 
     def branch(self, stmts, ctx):
         saved = set(self.defined)
@@ -1400,6 +1684,9 @@ class DynFn:
             if any(isinstance(x, ast.Break) for x in self.own_nodes(s.body)):
                 self.fail(s, 'for … else with a break in the body')
             rest = list(s.orelse) + list(rest)
+        if isinstance(s.iter, ast.Call) and isinstance(s.iter.func, ast.Name) \
+                and s.iter.func.id in getattr(self, 'localgens', {}) and self.localkind.get(s.iter.func.id) == 'gen':
+            return self.for_generator(s, ctx, rest, out)
         xs = self.iterable(s.iter, out)
         d0 = set(self.defined)
         body_assigned = self.assigned(s.body)
@@ -1519,9 +1806,18 @@ class DynFn:
         for d in node.decorator_list:
             if ast.unparse(d) not in allowed:
                 self.fail(node, 'decorator %s is not declared' % ast.unparse(d))
-        if any(isinstance(x, (ast.Yield, ast.YieldFrom, ast.Await, ast.Global, ast.Nonlocal, ast.While, ast.With))
-               for x in self.own_nodes(node.body)):
-            self.fail(node, 'generator / global / while / with')
+        def outside_nested(stmts):
+            stack = list(stmts)
+            while stack:
+                n = stack.pop()
+                if isinstance(n, (ast.FunctionDef, ast.Lambda)):
+                    continue                               # a nested generator is checked by `local_generator`
+                yield n
+                stack.extend(ast.iter_child_nodes(n))
+        if any(isinstance(x, (ast.Yield, ast.YieldFrom)) for x in outside_nested(node.body)) or \
+                any(isinstance(x, (ast.Await, ast.Global, ast.Nonlocal, ast.While, ast.AsyncWith))
+                    for x in self.own_nodes(node.body)):
+            self.fail(node, 'generator / global / while / async with')
         names = [x.arg for x in a.args]
         # `self` counts as used only outside the receiver of an ignored (logging) call: `self.debug(…)` reads nothing
         ignored_funcs = {id(x.func) for x in ast.walk(node) if isinstance(x, ast.Call)
